@@ -384,11 +384,11 @@ func (h *histRun) opSession(op string) {
 		expiresIn = pick(r, []int64{1, 59, 61, 119, 121, 299, 301, 3600})
 	}
 	clientShape := r.intn(4)
-	// a decodable 200 that carries NO tokens ({} or only token_type): for the relying party this is a grant of nothing - the session must not keep or
-	// regain a usable token through it (reported to the oracle as an ok answer with empty tokens and expires_in 0)
+	// a decodable 200 that carries NO tokens ({} or only token_type): access_token is REQUIRED in a token response, so this is an unusable answer like a
+	// non-JSON one - nothing may be stored from it and the session keeps what it had (reported to the oracle as plan "broken")
 	emptyOK := plan == "ok" && r.chance(1, 12)
 	if emptyOK {
-		expiresIn = 0
+		plan = "broken"
 	}
 	h.s.idp.mu.Lock()
 	h.s.idp.tokenDuration = time.Duration(expiresIn) * time.Second
@@ -397,7 +397,7 @@ func (h *histRun) opSession(op string) {
 			return nil
 		}
 		if emptyOK {
-			return &idpFault{status: 200, body: pick(r, []string{`{}`, `{"token_type":"Bearer"}`, `{"token_type":"Bearer","scope":"openid"}`}), okOutcome: true}
+			return &idpFault{status: 200, body: pick(r, []string{`{}`, `{"token_type":"Bearer"}`, `{"token_type":"Bearer","scope":"openid"}`, `{"access_token":"","refresh_token":"rt-x-9","expires_in":3600}`})}
 		}
 		switch plan {
 		case "client": // a rejection is a 4xx, whatever its body looks like (OAuth JSON error, a gateway's HTML page, nothing at all)
@@ -586,7 +586,7 @@ func (h *histRun) opSession(op string) {
 	kv := []any{"hid", h.hid, "i", h.step, "mode", hc.modeNum(), "cfwd", hc.forwardAuth, "inact", hc.inactivity, "maxlife", hc.maxLifetime, "acr", hx(hc.acr),
 		"idtok", hc.idTok, "autologin", hc.autoLogin,
 		"op", op, "now", now, "ck", pre.ck, "plan", plan, "secs", expiresIn,
-		"newat", hx(map[bool]string{true: "", false: fmt.Sprintf("at%d", h.genNext(pre))}[emptyOK]), "newrt", hx(map[bool]string{true: "", false: fmt.Sprintf("rt%d", h.genNext(pre))}[emptyOK]),
+		"newat", hx(fmt.Sprintf("at%d", h.genNext(pre))), "newrt", hx(fmt.Sprintf("rt%d", h.genNext(pre))),
 		"lag", int64(h.s.lag), "ignored", ignored, "nav", nav, "cauth", clientAuth != "", "cid", clientID != "", "hop", hop, "sidmatch", sidMatch}
 	kv = append(kv, h.stFields("", pre)...)
 	kv = append(kv, "status", resp.Status, "fwd", len(ups) > 0, "upauth", upAuth, "nauth", nAuthVals, "upid", upID, "contacted", contacted, "granted", granted,
